@@ -21,7 +21,11 @@ type ctorCase struct {
 	Schedule int    `json:"schedule"` // one of three fixed pseudo-random schedules (scanner vs parser)
 }
 
-var ctorForms = []string{"class/MakeFromArray", "class/MakeFromSequence", "module/array", "module/sequence", "module/source", "ParseSource"}
+// The last two forms pass a capacity next to the initial values.  Whatever the constructor makes of that
+// combination (the capacity wins and the values are ignored, or the queue is made large enough), it must
+// return, and what it returns must be a usable queue within its capacity.
+var ctorForms = []string{"class/MakeFromArray", "class/MakeFromSequence", "module/array", "module/sequence", "module/source", "ParseSource",
+	"module/capacity+array", "module/capacity+sequence"}
 
 func genCtor(s core.Source) ctorCase {
 	return ctorCase{Form: core.Pick(s, ctorForms, "form"), N: s.Choose(65, "n"), Schedule: s.Choose(3, "schedule")} // 0 .. 4*16
@@ -60,6 +64,10 @@ func execCtor(c ctorCase, _ core.Source) (res core.Result) {
 			q = mod.Queue[int64](col.List[int64](n).MakeFromArray(vals))
 		case "module/source":
 			q = mod.Queue[int64](source)
+		case "module/capacity+array":
+			q = mod.Queue[int64](uint(3), vals)
+		case "module/capacity+sequence":
+			q = mod.Queue[int64](col.List[int64](n).MakeFromArray(vals), uint(3))
 		case "ParseSource":
 			qa := mod.ParseSource(source).(col.QueueLike[any])
 			for _, x := range qa.AsArray() {
@@ -76,7 +84,7 @@ func execCtor(c ctorCase, _ core.Source) (res core.Result) {
 			q.AddValue(-1)
 		}
 		stage = "RemoveHead on the constructed queue"
-		for k := 0; k < size; k++ {
+		for k := 0; k < size && k < len(vals); k++ {
 			if v, ok := q.RemoveHead(); !ok || v != vals[k] {
 				usable = fmt.Sprintf("RemoveHead #%d returned (%d, %v)", k+1, v, ok)
 				return
@@ -103,7 +111,13 @@ func execCtor(c ctorCase, _ core.Source) (res core.Result) {
 		res.Violation = core.Violate("C05/ctor/panicked", "%s panicked: %s", desc, lib.Short(g.Panic))
 		return
 	}
-	if len(got) != c.N || size != c.N || uint(size) > capacity {
+	if strings.HasPrefix(c.Form, "module/capacity+") {
+		// the combination is not specified: the queue holds all, some leading or none of the values
+		if len(got) > c.N || size != len(got) || uint(size) > capacity {
+			res.Violation = core.Violate("C05/ctor/contents", "%s returned a queue with %d values (GetSize %d, capacity %d)", desc, len(got), size, capacity)
+			return
+		}
+	} else if len(got) != c.N || size != c.N || uint(size) > capacity {
 		res.Violation = core.Violate("C05/ctor/contents", "%s returned a queue with %d values (GetSize %d, capacity %d)", desc, len(got), size, capacity)
 		return
 	}
